@@ -392,7 +392,7 @@ inline char const* probe_name(int p) {
 	    "reextent_grow", "reextent_shrink", "reextent_mixed", "reextent_to_empty", "reextent_from_empty", "reextent_noop",
 	    "move_assign_unequal_allocators", "fault_fired_in_constructor", "fault_fired_after_first_event", "fault_fired_during_load", "retry_after_fault",
 	    "view_strided", "view_rotated", "view_dimension_changed", "view_assign_same_root", "stream_one_byte_chunks", "dirty_resync", "self_assignment",
-	    "copy_to_other_arena", "swap_other_arena", "trivial_unwritten_checked", "held_view_checked", "moved_elements_checked",
+	    "copy_assign_same_extents_other_arena", "swap_other_arena", "trivial_unwritten_checked", "held_view_checked", "moved_elements_checked",
 	    "load_different_extents", "load_same_extents", "load_into_view", "mpi_strided_message"};
 	return (p >= 0 && p < P_COUNT_) ? n[p] : "?";
 }
